@@ -78,8 +78,8 @@ def run_harness(name, args=(), stdin_lines=None, timeout=3600, env=None):
     if p.returncode != 0:
         raise HarnessCrash(name, p.returncode, p.stderr[-4000:], p.stdout)
     out = []
-    for l in p.stdout.splitlines():
-        l = l.strip()
+    for l in p.stdout.split("\n"):       # not splitlines(): U+2028 inside a JSON string is not a line end
+        l = l.strip(" \t\r")
         if l:
             out.append(json.loads(l))
     return out
